@@ -1,9 +1,9 @@
 //! Input generators.  Every choice derives from the one PRNG passed in.
 use crate::common::*;
 
-pub const FAMILIES: [&str; 14] = [
+pub const FAMILIES: [&str; 16] = [
     "uniform", "lattice", "allequal", "allzero", "duppoints", "negative", "sorted",
-    "revsorted", "collinear", "pow2", "huge", "tiny", "neartie", "euclid",
+    "revsorted", "collinear", "pow2", "huge", "tiny", "neartie", "euclid", "signed", "staircase",
 ];
 
 fn len_of(n: usize) -> usize { n * n.saturating_sub(1) / 2 }
@@ -36,6 +36,15 @@ pub fn matrix_f64(rng: &mut Rng, n: usize, fam: &str, wide: bool) -> Vec<f64> {
             }
         }
         "negative" => { for _ in 0..len { v.push(rng.unit() * 2.0 - 1.0); } }
+        "signed" => {
+            // small signed integers: exact zeros next to negative and positive values
+            let k = rng.range(1, 3) as i64;
+            for _ in 0..len { v.push((rng.below(2 * k as u64 + 1) as i64 - k) as f64); }
+        }
+        "staircase" => {
+            // d(i,j) = (n-j)(n+1) + (n-i): every cached nearest neighbour goes stale
+            for i in 0..n { for j in i + 1..n { v.push(((n - j) * (n + 1) + (n - i)) as f64); } }
+        }
         "sorted" | "revsorted" => {
             let mut x = rng.unit();
             for _ in 0..len { x += rng.unit() * 0.5 + 0.01; v.push(x); }
@@ -134,10 +143,10 @@ impl AlgoCase {
 
 fn pick_family(rng: &mut Rng) -> &'static str {
     // tie-heavy families weighted up
-    const W: [(&str, u64); 14] = [
+    const W: [(&str, u64); 16] = [
         ("uniform", 4), ("lattice", 5), ("allequal", 2), ("allzero", 1), ("duppoints", 3),
         ("negative", 1), ("sorted", 1), ("revsorted", 1), ("collinear", 2), ("pow2", 1),
-        ("huge", 1), ("tiny", 1), ("neartie", 3), ("euclid", 3),
+        ("huge", 1), ("tiny", 1), ("neartie", 3), ("euclid", 3), ("signed", 3), ("staircase", 1),
     ];
     let total: u64 = W.iter().map(|w| w.1).sum();
     let mut r = rng.below(total);
@@ -267,7 +276,7 @@ pub fn history(rng: &mut Rng, thorough: bool) -> History {
             if rng.below(2) == 0 { let k2 = rng.below(v.len() as u64) as usize; v[k2] = f64::NAN; }
             calls.push(HistCall { algo, method, n, bits: to_bits(&v, wide), kind: "nan" });
         } else {
-            let fam = match rng.below(10) { 0..=3 => "lattice", 4 => "duppoints", 5 => "allequal", 6 => "neartie", 7 => "euclid", _ => "uniform" };
+            let fam = match rng.below(11) { 0..=3 => "lattice", 4 => "duppoints", 5 => "allequal", 6 => "neartie", 7 => "euclid", 8 => "signed", _ => "uniform" };
             let v = matrix_f64(rng, n as usize, fam, wide);
             calls.push(HistCall { algo, method, n, bits: to_bits(&v, wide), kind: fam });
         }
